@@ -14,6 +14,10 @@ SHORT = {s: s.split(".")[1] if s.split(".")[1] not in ("Pi", "Scheme3") else s.s
 SET_RESULT = {"DP17.Pi"}
 SORTED_TABLE_SCHEMES = ["CJJ14.PiBas", "CJJ14.PiPack", "CJJ14.PiPtr", "CJJ14.Pi2Lev", "CT14.Pi", "ANSS16.Scheme3"]
 
+# Set by the checks whose property does not fix the identifier length (C01-C03, C07): PiBas databases may then mix
+# identifier lengths. The shape / layout properties (C04-C06) are stated for fixed-size identifiers.
+MIXED_ID_SIZES = False
+
 DB_CLASSES = ["tiny", "single-pow2", "pow2-edge", "block-edge", "many-singletons", "one-heavy", "shared-id",
               "zero-bytes", "zipf", "array-edge"]
 
@@ -175,7 +179,12 @@ def pi2lev_case_of(cfg, n):
 # --------------------------------------------------------------------------------------------- identifiers / keywords
 def gen_id(rng, size, zero_rich=False):
     while True:
-        if zero_rich:
+        if zero_rich and rng.random() < 0.5:
+            # document numbers: small integers and round numbers, big-endian on the full width (one identifier ends
+            # with zero bytes, its neighbour starts with them)
+            v = rng.choice([rng.randint(1, 300), rng.randint(1, 300) << (8 * rng.randrange(size)), 256, 65536, 5, 512])
+            b = (v % (256 ** size)).to_bytes(size, "big")
+        elif zero_rich:
             b = bytearray(size)
             for _ in range(rng.randint(1, max(1, (size + 1) // 2))):
                 b[rng.randrange(size)] = rng.choice([1, 0x80, 0xff, rng.randrange(1, 256)])
@@ -348,6 +357,7 @@ def db_from_lens(rng, scheme, cfg, lens, cls="profile", fix_config=True, kw_min=
     # one database in six lets keywords of equal list length share ONE list object (db[b"colour"] = db[b"color"]):
     # equal to a database with separate lists, but in-place work on one keyword's list then reaches the other
     alias = rng.random() < 1 / 6
+    mixed_sizes = MIXED_ID_SIZES and scheme == "CJJ14.PiBas" and "param_identifier_size" not in cfg and rng.random() < 0.25
     by_len = {}
     aliased = 0
     for n in lens:
@@ -358,6 +368,12 @@ def db_from_lens(rng, scheme, cfg, lens, cls="profile", fix_config=True, kw_min=
             aliased += 1
             continue
         ids = gen_ids(rng, isz, n, zero_rich, pool)
+        if mixed_sizes:
+            # PiBas has no identifier-size parameter: identifiers of several lengths (several AES padding classes)
+            ids = list(dict.fromkeys(rng.randbytes(rng.choice([4, 8, 15, 16, 17, 32])) or b"\x01" for _ in range(n)))
+            while len(ids) < n:
+                ids.append(rng.randbytes(20))
+            ids = [i if any(i) else b"\x01" + i[1:] for i in ids]
         if shared is not None and shared not in ids:
             ids[rng.randrange(len(ids))] = shared
         db[kw] = ids
